@@ -57,7 +57,7 @@ def run(ck, prog, tier, load):
     pdec = prog.one(r"^<actix_http::h1::decoder::PayloadDecoder as tokio_util::codec::decoder::Decoder>::decode$")
     sh = prog.one(r"^actix_http::h1::decoder::MessageType::set_headers$")
     readers = {b.npath.split("::")[-1]: b for b in prog.find(r"^actix_http::h1::chunked::ChunkedState::read_[a-z_]+$")}
-    ck.anchor("C01-anchor", len(readers), 9, "chunk-state reader functions")
+    ck.anchor("C01-anchor", len(readers), 5, "chunk-state reader functions")
 
     # ---- (a) no consumption before need-more -----------------------------------
     n = 0
@@ -81,7 +81,7 @@ def run(ck, prog, tier, load):
             n += 1
             bad = [c for c in cons if bb in b.reach([c])]
             ck.ob("C01-a.need-more-pure", name, not bad, b, bb, "`Poll::Pending` (no byte available) is unreachable from any consuming call")
-    ck.anchor("C01-a", n, 12, "need-more returns in the h1 decoders")
+    ck.anchor("C01-a", n, 6, "need-more returns in the h1 decoders")
     # chunked driver persists the state before any return
     steps = [bb for bb, t in pdec.calls(r"ChunkedState::step$")]
     ck.anchor("C01-a", len(steps), 1, "ChunkedState::step in PayloadDecoder::decode")
@@ -107,7 +107,7 @@ def run(ck, prog, tier, load):
 
     # ---- (b) framing-conflict rejections -----------------------------------------
     errs = [(bb, e) for bb, e in sh.ret_exprs() if is_agg(e, r"Result::Err$") and any(is_agg(x, r"ParseError::Header$") for x in walk(e))]
-    ck.anchor("C01-b", len(errs), 7, "Err(ParseError::Header) returns in set_headers")
+    ck.anchor("C01-b", len(errs), 4, "Err(ParseError::Header) returns in set_headers")
 
     def hdr_arm(bb, name):
         return any(c[0] == "discr" and (c[2] or "").endswith("StandardHeader") and labels_in(lab, (name,)) for c, lab, a in sh.guards(bb))
@@ -239,7 +239,7 @@ def run(ck, prog, tier, load):
         if br and br[0][0] == "discr" and br[0][2] == "actix_http::error::ParseError":
             for lab, tb in br[1]:
                 arms[lab if isinstance(lab, str) else "otherwise"] = tb
-    ck.anchor("C01-c", len(arms), 3, "ParseError arms in poll_request (Io, TooLarge, otherwise)")
+    ck.anchor("C01-c", len(arms), 2, "ParseError arms in poll_request (Io, TooLarge, otherwise)")
     for lab, tb in arms.items():
         reg = {x for x in preq.reach([tb]) if preq.dominates(tb, x)}
         if lab == "TooLarge":
@@ -282,7 +282,7 @@ def run(ck, prog, tier, load):
                             e_ = step.op_expr(a_)
                             if e_[0] == "const" and e_[4] == "bool":
                                 const_args.setdefault(lab, {})[ai + 1] = bool(e_[2])
-    ck.anchor("C01-d", len(dispatch), 9, "state -> reader dispatch entries in ChunkedState::step")
+    ck.anchor("C01-d", len(dispatch), 5, "state -> reader dispatch entries in ChunkedState::step")
     tables = {}
     for st, fn in sorted(dispatch.items()):
         if fn is None or fn not in readers:
@@ -297,7 +297,7 @@ def run(ck, prog, tier, load):
             ck.ob("C01-d.table-extracted", st, False, readers[fn], None, "no byte dispatch found in %s: %s" % (fn, info))
             continue
         tables[st] = t
-    ck.anchor("C01-d", len(tables), 8, "byte tables extracted from the readers")
+    ck.anchor("C01-d", len(tables), 4, "byte tables extracted from the readers")
     # which implementation state plays which reference role
     init = None
     chk = prog.one(r"^actix_http::h1::decoder::PayloadDecoder::chunked$")
